@@ -300,6 +300,7 @@ def parseLine (p : PState) (km : KMap) (line : String) : PState × KMap :=
   | "cend" :: _ => (p, km)
   | "census" :: _ => (p, km)
   | "svcnew" :: _ => (p, km)
+  | "note" :: _ => (p, km)          -- remarks of the harness that are no events (a `try_publish` that found no broker)
   | "quiescent" :: rest =>
     -- every actor is told which of the operations still pending are operations on it
     let pend := parseNats rest
